@@ -66,30 +66,41 @@ func runAppMetadata(s *shape) {
 	}
 	valid := buildAppMd(keys, vals, s.Total, s)
 	bindLayout(s, valid)
-	for _, m := range s.Muts {
-		in := apply(valid, m)
-		var md *appendable.Metadata
-		o := call(func() error { md = appendable.NewMetadata(in); return nil })
-		if !judge("appendable.NewMetadata", s, m, in, o, "") || o.kind != "value" {
-			continue
+	var tasks []task
+	for k, m := range s.Muts {
+		var vl []int
+		for _, v := range vals {
+			vl = append(vl, len(v))
 		}
-		// readers fetch what writers stored with the typed accessors: an item written with PutInt (8 bytes)
-		// is read with GetInt, one written with PutBool (1 byte) with GetBool
-		o2 := call(func() error {
-			for i, k := range keys {
-				md.Get(k)
-				switch len(vals[i]) {
-				case 8:
-					md.GetInt(k)
-				case 1:
-					md.GetBool(k)
-				}
-			}
-			_ = md.Bytes()
-			return nil
-		})
-		judge("appendable.NewMetadata", s, m, in, o2, "GetInt/GetBool")
+		tasks = append(tasks, task{Idx: k, Kind: "appmd", In: apply(valid, m), Keys: keys, ValLens: vl})
 	}
+	childJobs = append(childJobs, &childJob{s: s, tasks: tasks})
+}
+
+// decodeAppMd runs in the child process (address-space limit): the decoder and the typed accessors readers use.
+func decodeAppMd(t task) []stageOut {
+	var md *appendable.Metadata
+	o := call(func() error { md = appendable.NewMetadata(t.In); return nil })
+	out := []stageOut{{Entry: "appendable.NewMetadata", O: o}}
+	if o.kind != "value" {
+		return out
+	}
+	// readers fetch what writers stored with the typed accessors: an item written with PutInt (8 bytes)
+	// is read with GetInt, one written with PutBool (1 byte) with GetBool
+	o2 := call(func() error {
+		for i, k := range t.Keys {
+			md.Get(k)
+			switch t.ValLens[i] {
+			case 8:
+				md.GetInt(k)
+			case 1:
+				md.GetBool(k)
+			}
+		}
+		_ = md.Bytes()
+		return nil
+	})
+	return append(out, stageOut{Entry: "appendable.NewMetadata", Stage: "GetInt/GetBool", O: o2})
 }
 
 // ---------------------------------------------------------------- singleapp file header
@@ -140,33 +151,40 @@ func runAppFile(s *shape, dir string) {
 		}
 	}
 	bindLayout(s, valid)
+	var tasks []task
 	for k, m := range s.Muts {
-		in := apply(valid, m)
-		fp := filepath.Join(dir, fmt.Sprintf("appfile-%d.val", k))
-		vh.Must(os.WriteFile(fp, in, 0644), "write mutated file")
-		var a *singleapp.AppendableFile
-		o := call(func() error {
-			x, err := singleapp.Open(fp, singleapp.DefaultOptions().WithReadOnly(true))
-			a = x
-			return err
-		})
-		if judge("singleapp.Open", s, m, in, o, "") && o.kind == "value" {
-			o2 := call(func() error {
-				_ = a.Metadata()
-				sz, _ := a.Size()
-				if sz > 0 && sz < 1<<20 {
-					buf := make([]byte, sz)
-					a.ReadAt(buf, 0)
-				}
-				return nil
-			})
-			judge("singleapp.Open", s, m, in, o2, "Metadata/Size/ReadAt")
-		}
-		if a != nil {
-			call(func() error { return a.Close() })
-		}
-		os.Remove(fp)
+		tasks = append(tasks, task{Idx: k, Kind: "appfile", In: apply(valid, m), Dir: dir})
 	}
+	childJobs = append(childJobs, &childJob{s: s, tasks: tasks})
+}
+
+func decodeAppFile(t task) []stageOut {
+	fp := filepath.Join(t.Dir, fmt.Sprintf("appfile-%d.val", t.Idx))
+	vh.Must(os.WriteFile(fp, t.In, 0644), "write mutated file")
+	defer os.Remove(fp)
+	var a *singleapp.AppendableFile
+	o := call(func() error {
+		x, err := singleapp.Open(fp, singleapp.DefaultOptions().WithReadOnly(true))
+		a = x
+		return err
+	})
+	out := []stageOut{{Entry: "singleapp.Open", O: o}}
+	if o.kind == "value" {
+		o2 := call(func() error {
+			_ = a.Metadata()
+			sz, _ := a.Size()
+			if sz > 0 && sz < 1<<20 {
+				buf := make([]byte, sz)
+				a.ReadAt(buf, 0)
+			}
+			return nil
+		})
+		out = append(out, stageOut{Entry: "singleapp.Open", Stage: "Metadata/Size/ReadAt", O: o2})
+	}
+	if a != nil {
+		call(func() error { return a.Close() })
+	}
+	return out
 }
 
 // ---------------------------------------------------------------- PostgreSQL frontend messages
@@ -335,60 +353,66 @@ func runStream(s *shape) {
 		valid = append(valid, c...)
 	}
 	bindLayout(s, valid)
-	for _, m := range s.Muts {
-		in := apply(valid, m)
-		for _, cs := range []int{0, 7} {
-			o := call(func() error {
-				_, _, err := stream.NewMsgReceiver(chunked(in, cs)).ReadFully()
-				if err == io.EOF {
-					return nil
-				}
-				return err
-			})
-			variantTag = tagIf(cs)
-			judge("stream.msgReceiver.ReadFully", s, m, in, o, "")
-			o = call(func() error {
-				kvr := stream.NewKvStreamReceiver(stream.NewMsgReceiver(chunked(in, cs)), 16)
-				for n := 0; n < 64; n++ {
-					_, vr, err := kvr.Next()
-					if err != nil {
-						if err == io.EOF {
-							return nil
-						}
-						return err
-					}
-					if _, err := stream.ReadValue(vr, 16); err != nil {
-						if err == io.EOF {
-							return nil
-						}
-						return err
-					}
-				}
-				return nil
-			})
-			judge("stream.kvStreamReceiver.Next", s, m, in, o, "")
-			o = call(func() error {
-				ear := stream.NewExecAllStreamReceiver(stream.NewMsgReceiver(chunked(in, cs)), 16)
-				for n := 0; n < 64; n++ {
-					op, err := ear.Next()
-					if err != nil {
-						if err == io.EOF {
-							return nil
-						}
-						return err
-					}
-					if kv, ok := op.(*stream.Op_KeyValue); ok {
-						if _, err := stream.ReadValue(kv.KeyValue.Value.Content, 16); err != nil && err != io.EOF {
-							return err
-						}
-					}
-				}
-				return nil
-			})
-			judge("stream.execAllStreamReceiver.Next", s, m, in, o, "")
-			variantTag = ""
-		}
+	var tasks []task
+	for k, m := range s.Muts {
+		tasks = append(tasks, task{Idx: k, Kind: "stream", In: apply(valid, m)})
 	}
+	childJobs = append(childJobs, &childJob{s: s, tasks: tasks})
+}
+
+func decodeStream(t task) []stageOut {
+	var out []stageOut
+	in := t.In
+	for _, cs := range []int{0, 11} {
+		o := call(func() error {
+			_, _, err := stream.NewMsgReceiver(chunked(in, cs)).ReadFully()
+			if err == io.EOF {
+				return nil
+			}
+			return err
+		})
+		out = append(out, stageOut{Entry: "stream.msgReceiver.ReadFully", Variant: tagIf(cs), O: o})
+		o = call(func() error {
+			kvr := stream.NewKvStreamReceiver(stream.NewMsgReceiver(chunked(in, cs)), 16)
+			for n := 0; n < 64; n++ {
+				_, vr, err := kvr.Next()
+				if err != nil {
+					if err == io.EOF {
+						return nil
+					}
+					return err
+				}
+				if _, err := stream.ReadValue(vr, 16); err != nil {
+					if err == io.EOF {
+						return nil
+					}
+					return err
+				}
+			}
+			return nil
+		})
+		out = append(out, stageOut{Entry: "stream.kvStreamReceiver.Next", Variant: tagIf(cs), O: o})
+		o = call(func() error {
+			ear := stream.NewExecAllStreamReceiver(stream.NewMsgReceiver(chunked(in, cs)), 16)
+			for n := 0; n < 64; n++ {
+				op, err := ear.Next()
+				if err != nil {
+					if err == io.EOF {
+						return nil
+					}
+					return err
+				}
+				if kv, ok := op.(*stream.Op_KeyValue); ok {
+					if _, err := stream.ReadValue(kv.KeyValue.Value.Content, 16); err != nil && err != io.EOF {
+						return err
+					}
+				}
+			}
+			return nil
+		})
+		out = append(out, stageOut{Entry: "stream.execAllStreamReceiver.Next", Variant: tagIf(cs), O: o})
+	}
+	return out
 }
 
 func tagIf(cs int) string {
